@@ -214,6 +214,9 @@ func runC19(args []string) error {
 	if err := runC19Cluster(rf, sum, cf); err != nil {
 		return err
 	}
+	if err := runC19EngineEvents(sum); err != nil {
+		return err
+	}
 	names, err := cf.Write(rf.Out, "c19_cases", 400)
 	if err != nil {
 		return err
